@@ -10,16 +10,24 @@
 //
 // A task may also block inside the code under test (waiting for something
 // another, parked, task will do: a single-flight load, a condition variable).
-// The scheduler cannot see that wait; it notices that the released task neither
-// parks nor finishes within BlockedAfter, marks it blocked and releases another
-// parked task. When the blocked task wakes up it runs until its next park
-// point, concurrently with whatever task is released at that moment: in such
-// runs the "one at a time" rule is relaxed for that stretch, and a run in
-// which every remaining task is blocked is reported as a deadlock.
+// The scheduler cannot see that wait directly. When the released task neither
+// parks nor finishes within BlockedAfter the scheduler takes ONE consistent
+// snapshot of all goroutine states (runtime.Stack with all=true stops the
+// world): if no goroutine that belongs to this run is running, runnable, in a
+// system call or asleep, nothing can happen until the scheduler acts, so the
+// silent tasks are blocked in the library and another parked task is released.
+// When the blocked task wakes up it runs until its next park point,
+// concurrently with whatever task is released at that moment: in such runs the
+// "one at a time" rule is relaxed for that stretch. A run in which every
+// remaining task is blocked and, again by snapshot, nothing can run, is a
+// deadlock. The wall-clock intervals only decide WHEN the scheduler looks; the
+// verdicts "blocked" and "deadlocked" are functions of the program state, so a
+// slow or overloaded machine cannot produce them.
 package sched
 
 import (
 	"runtime"
+	"strings"
 	"sync"
 	"time"
 )
@@ -63,11 +71,76 @@ type Sched struct {
 	BlockedEvents int
 	// Deadlocked is set when every unfinished task ended up blocked.
 	Deadlocked bool
-	wg         sync.WaitGroup
+	// SlowWaits counts timeouts at which the snapshot showed a goroutine still
+	// at work (a slow step, not a blocked one): a measure of machine load only.
+	SlowWaits int
+	wg        sync.WaitGroup
+	// goroutines that existed before Run (the harness's own: watchdogs, what
+	// earlier runs left behind); they never count as "this run can progress"
+	preexisting map[uint64]bool
 }
 
 func New(pick func(n int) int) *Sched {
-	return &Sched{notify: make(chan int, 64), Pick: pick, BlockedAfter: 250 * time.Millisecond, DeadlockAfter: 20 * time.Second}
+	return &Sched{notify: make(chan int, 64), Pick: pick, BlockedAfter: 250 * time.Millisecond, DeadlockAfter: 2 * time.Second}
+}
+
+// goroutineStates returns id -> state ("running", "runnable", "chan receive",
+// "sync.Mutex.Lock", ...) of every goroutine from one stop-the-world snapshot.
+func goroutineStates() map[uint64]string {
+	buf := make([]byte, 1<<20)
+	for {
+		n := runtime.Stack(buf, true)
+		if n < len(buf) || len(buf) >= 256<<20 {
+			buf = buf[:n]
+			break
+		}
+		buf = make([]byte, 2*len(buf))
+	}
+	out := map[uint64]string{}
+	for _, blk := range strings.Split(string(buf), "\n\n") {
+		if !strings.HasPrefix(blk, "goroutine ") {
+			continue
+		}
+		hdr := blk
+		if i := strings.IndexByte(hdr, '\n'); i >= 0 {
+			hdr = hdr[:i]
+		}
+		rest := hdr[len("goroutine "):]
+		var id uint64
+		i := 0
+		for ; i < len(rest) && rest[i] >= '0' && rest[i] <= '9'; i++ {
+			id = id*10 + uint64(rest[i]-'0')
+		}
+		lb, rb := strings.IndexByte(rest, '['), strings.LastIndexByte(rest, ']')
+		if i == 0 || lb < 0 || rb < lb {
+			continue
+		}
+		st := rest[lb+1 : rb]
+		if c := strings.IndexByte(st, ','); c >= 0 {
+			st = st[:c]
+		}
+		if strings.Contains(blk, "os/signal.signal_recv") || strings.Contains(blk, "runtime.ensureSigM") {
+			st = "signal-wait" // parked in a system call for good
+		}
+		out[id] = st
+	}
+	return out
+}
+
+// canProgress reports, from one snapshot, whether any goroutine of this run
+// other than the scheduler can still do something by itself.
+func (s *Sched) canProgress() bool {
+	me := curGID()
+	for id, st := range goroutineStates() {
+		if id == me || s.preexisting[id] {
+			continue
+		}
+		switch st {
+		case "running", "runnable", "syscall", "sleep", "IO wait":
+			return true
+		}
+	}
+	return false
 }
 
 // Go registers a task. Must be called before Run.
@@ -205,6 +278,16 @@ func (s *Sched) settle() {
 		}
 		id, ok := s.recvNotify(s.BlockedAfter)
 		if !ok {
+			if s.canProgress() {
+				s.SlowWaits++
+				continue // a slow step, not a blocked one
+			}
+			// nothing can run; a notification may have been sent just before
+			// the snapshot
+			if id, ok := s.recvNotify(0); ok {
+				s.noted(id)
+				continue
+			}
 			for _, t := range s.tasks {
 				if t.st == stOut {
 					t.st = stBlocked
@@ -229,6 +312,10 @@ func (s *Sched) settle() {
 // task at a time until all have finished. It returns the panic values of the
 // tasks (nil entries for tasks that returned normally).
 func (s *Sched) Run() []any {
+	s.preexisting = map[uint64]bool{}
+	for id := range goroutineStates() {
+		s.preexisting[id] = true
+	}
 	for _, t := range s.tasks {
 		t := t
 		t.st = stOut
@@ -267,10 +354,19 @@ func (s *Sched) Run() []any {
 			break
 		}
 		if len(parked) == 0 {
-			// only blocked tasks remain. A task that was merely slow (a loaded
-			// machine) will still report; a deadlock stays silent. Wait long
-			// enough that slowness cannot be mistaken for one.
+			// only blocked tasks remain. One of them may have been woken by what
+			// ran last and be on its way to a park point: as long as the
+			// snapshot shows anything of this run at work, keep waiting (the
+			// per-run wall-clock watchdog of the driver bounds that).
 			if id, ok := s.recvNotify(s.DeadlockAfter); ok {
+				s.noted(id)
+				continue
+			}
+			if s.canProgress() {
+				s.SlowWaits++
+				continue
+			}
+			if id, ok := s.recvNotify(0); ok {
 				s.noted(id)
 				continue
 			}
